@@ -193,13 +193,16 @@ def run(chk, replay=None):
                 filt = "0" if rng.chance(0.8) else "%d_%d" % (rng.between(2, 5), rng.below(2))
                 cases.append(("xrff", "xrff %s %s" % (filt, L.hx(xml)), None, "xml:" + what))
                 continue
+            delim = rng.choice([T["delim"][0]] * 5 + [0, 0, 44, 59, 9, 32, 34, 10, 255])
+            hdr = rng.choice([-1, 0, 1, 1 if T["header"] is not None else 0])
+            if delim == 0 or hdr == -1:
+                # the sniffer's window (20 lines) is a parameter of the model: keep the input inside it
+                T["rows"] = T["rows"][:14]
             data = L.render_csv(rng, T)
             data, what = mutate_csv(rng, T, data)
             for _ in range(rng.below(2)):
                 data, w2 = mutate_csv(rng, T, data)
                 what += "+" + w2
-            delim = rng.choice([T["delim"][0]] * 5 + [0, 0, 44, 59, 9, 32, 34, 10, 255])
-            hdr = rng.choice([-1, 0, 1, 1 if T["header"] is not None else 0])
             o = rng.choice([-1, 0, 0, 1, T["ncols"] - 1, rng.below(T["ncols"]), rng.below(T["ncols"]),
                             -1 if T["out"] is None else T["out"], -1 if T["out"] is None else T["out"],
                             T["ncols"], T["ncols"] + 3, 100])
@@ -211,7 +214,9 @@ def run(chk, replay=None):
             alphabet = b',;\t "\n\r\x00ab1.-e\xff'
             data = bytes(alphabet[rng.below(len(alphabet))] if rng.chance(0.8) else rng.below(256) for _ in range(m))
             o = rng.choice([-1, 0, 1, 2, 5])
-            ln = "csv %d %d %d %d 0 %s" % (rng.choice([0, 44, 59, 9]), rng.choice([-1, 0, 1]), rng.below(2), o, L.hx(data))
+            sniffing = data.count(b"\n") <= 17
+            ln = "csv %d %d %d %d 0 %s" % (rng.choice([0, 44, 59, 9] if sniffing else [44, 59, 9]),
+                                          rng.choice([-1, 0, 1] if sniffing else [0, 1]), rng.below(2), o, L.hx(data))
             cases.append(("csv", ln, ln, "csv:random-bytes"))
             if rng.chance(0.3):
                 cases.append(("xrff", "xrff 0 " + L.hx(data), None, "xml:random-bytes"))
